@@ -187,6 +187,68 @@ theorem lookups_ok (s' : PState) (inst : Installed) (c : Compiled) (hc : s'.comp
       Walk.virtPtrs vargs = cs.map inst.vptr.get :=
   lookups_ok_pre s' inst c hc ids hlook hkeys hnomap [] args cs k (fun x hx => by cases hx) h
 
+/-- **every id of every registered class is published**: after an `update` that succeeded, the policy's
+    lookup of the id yields the v-table pointer slot written for the id's class by this update, and the
+    class's static cell is the one of that class — for the vector, both hashes and the map -/
+theorem registered_ids_published (s s' : PState) (mults rest : List UInt64)
+    (hup : s.update mults = (s', .ok, rest))
+    (hwf : WF s.cfg.proj s.registry.classes s.registry.methods)
+    (hword : ∀ r ∈ s.registry.classes, r.id < 2 ^ 64 - 1)
+    (c : Compiled) (hc : s'.compiled = some c) (id ci : Nat) (hid : id ∈ c.graph.ids ci) :
+    ci < c.graph.n ∧ lookupVptr s'.cfg s'.pub id = .ok (.cur ci) ∧
+      classIdx c.graph.heads (s'.cfg.proj id) = some ci := by
+  obtain ⟨c', inst, att, hcomp, hinst, hpub, hc', hi', hcfg⟩ := update_ok s s' mults rest hup
+  rw [hc] at hc'; cases hc'
+  obtain ⟨hg, _, _, _, _⟩ := VtblContent.compile_fields s.cfg.proj s.registry c hcomp
+  let ctx : Bridge.Ctx := ⟨s.cfg.proj, s.registry, c.graph, hg, hwf⟩
+  obtain ⟨_, hn, hheads, _⟩ := buildGraph_fields s.cfg.proj s.registry.classes c.graph hg
+  have hidkey : ∀ (id ci : Nat), id ∈ c.graph.ids ci → ctx.key ci = some (s.cfg.proj id) ∧ ci < c.graph.n := by
+    intro id ci hid
+    unfold Graph.ids at hid
+    cases hh : c.graph.heads[ci]? with
+    | none => simp [hh] at hid
+    | some hd =>
+      simp only [hh, Option.map_some, Option.getD_some] at hid
+      rw [hheads] at hh
+      have hmemhd : hd ∈ heads s.cfg.proj s.registry.classes := List.mem_of_getElem? hh
+      have hk := Ids.heads_idsOk s.cfg.proj s.registry.classes hd hmemhd id hid
+      constructor
+      · show keyAt s.cfg.proj s.registry.classes ci = some (s.cfg.proj id)
+        unfold keyAt keysOf
+        rw [List.getElem?_map, hh, hk]; rfl
+      · rw [hn]; exact (List.getElem?_eq_some_iff.mp hh).1
+  let ids := (List.range c.graph.n).map c.graph.ids
+  have hidsget : ∀ ci, ci < c.graph.n → ids[ci]? = some (c.graph.ids ci) := by
+    intro ci hlt
+    simp only [ids, List.getElem?_map, List.getElem?_range hlt, Option.map_some]
+  have hidsget' : ∀ (ci : Nat) (l : List Nat), ids[ci]? = some l → l = c.graph.ids ci := by
+    intro ci l hl
+    have hlt : ci < c.graph.n := by
+      have := (List.getElem?_eq_some_iff.mp hl).1
+      simpa [ids] using this
+    rw [hidsget ci hlt] at hl
+    exact (Option.some.inj hl).symm
+  refine ⟨(hidkey id ci hid).2, ?_, ?_⟩
+  · rw [hcfg]
+    apply Publish.lookup_published s.cfg ids s.budget mults s.pub s'.pub att rest hpub _ _ ci _ id (hidsget ci (hidkey id ci hid).2) hid
+    · intro ci cj l l' id hl hl' hid hid'
+      rw [hidsget' ci l hl] at hid
+      rw [hidsget' cj l' hl'] at hid'
+      exact Bridge.key_inj ctx ci cj _ (hidkey id ci hid).1 (hidkey id cj hid').1
+    · intro l hl id hid
+      obtain ⟨ci, hci⟩ := List.getElem?_of_mem hl
+      rw [hidsget' ci l hci] at hid
+      unfold Graph.ids at hid
+      cases hh : c.graph.heads[ci]? with
+      | none => simp [hh] at hid
+      | some hd =>
+        simp only [hh, Option.map_some, Option.getD_some] at hid
+        rw [hheads] at hh
+        obtain ⟨r, hr, hrid⟩ := Ids.heads_idsFrom s.cfg.proj s.registry.classes hd (List.mem_of_getElem? hh) id hid
+        rw [← hrid]; exact hword r hr
+  · rw [hcfg, hheads]
+    exact classIdx_of_get (heads_keys s.cfg.proj s.registry.classes).1 (hidkey id ci hid).1
+
 /-- a `virtual_ptr` made earlier that may be passed for an argument of dynamic type `id`: it holds the
     address of the class's static v-table pointer cell (what an indirect policy makes, at any time), or
     the v-table pointer of the class as the latest update published it (a pointer made since) -/
@@ -259,32 +321,15 @@ theorem call_after_update_stored (s s' : PState) (mults rest : List UInt64)
     exact (Option.some.inj hl).symm
   have hlook : ∀ (ci : Nat) (l : List Nat) (id : Nat), ids[ci]? = some l → id ∈ l → lookupVptr s'.cfg s'.pub id = .ok (.cur ci) := by
     intro ci l id hl hid
-    rw [hcfg]
-    apply Publish.lookup_published s.cfg ids s.budget mults s.pub s'.pub att rest hpub _ _ ci l id hl hid
-    · intro ci cj l l' id hl hl' hid hid'
-      rw [hidsget' ci l hl] at hid
-      rw [hidsget' cj l' hl'] at hid'
-      exact Bridge.key_inj ctx ci cj _ (hidkey id ci hid).1 (hidkey id cj hid').1
-    · intro l hl id hid
-      obtain ⟨ci, hci⟩ := List.getElem?_of_mem hl
-      rw [hidsget' ci l hci] at hid
-      unfold Graph.ids at hid
-      cases hh : c.graph.heads[ci]? with
-      | none => simp [hh] at hid
-      | some hd =>
-        simp only [hh, Option.map_some, Option.getD_some] at hid
-        rw [hheads] at hh
-        obtain ⟨r, hr, hrid⟩ := Ids.heads_idsFrom s.cfg.proj s.registry.classes hd (List.mem_of_getElem? hh) id hid
-        rw [← hrid]; exact hword r hr
+    rw [hidsget' ci l hl] at hid
+    exact (registered_ids_published s s' mults rest hup hwf hword c hc id ci hid).2.1
   have hreg' : Forall₂ (fun (id ci : Nat) => ∃ l, ids[ci]? = some l ∧ id ∈ l) (virtIds args) cs :=
     forall₂_imp hreg (fun id ci h => ⟨_, hidsget ci (hidkey id ci h).2, h⟩)
   have hkeys : ∀ (ci : Nat) (l : List Nat) (id : Nat), ids[ci]? = some l → id ∈ l →
       classIdx c.graph.heads (s'.cfg.proj id) = some ci := by
     intro ci l id hl hid
     rw [hidsget' ci l hl] at hid
-    have hk1 := (hidkey id ci hid).1
-    rw [hcfg, hheads]
-    exact classIdx_of_get (heads_keys s.cfg.proj s.registry.classes).1 hk1
+    exact (registered_ids_published s s' mults rest hup hwf hword c hc id ci hid).2.2
   have hpre' : ∀ x ∈ pre, ∀ (id ci : Nat) (l : List Nat), ((Kind.vptr, id), x.1) ∈ List.zipIdx args 0 → ids[ci]? = some l → id ∈ l →
       s'.derefVPtr inst x.2 = .ok (inst.vptr.get ci) := by
     intro x hx id ci l hm hl hid
